@@ -90,13 +90,18 @@ PROPS = {
     "C12": {
         "level": "Structure of condition(): branches are nested transactions with ready = condition / ~any(conds); every branch records its "
         "condition; priority chains the immediately preceding branch; nonblocking adds a default; alternatives declared; relation API "
-        "(simultaneous both ways, alternatives = simultaneous + independence); merged transaction calls every group member.",
-        "undecided": "the group-merging algorithm; branch admissibility over inputs.",
+        "(simultaneous both ways, alternatives = simultaneous + independence); merged transaction calls every group member. Steps of the "
+        "group computation in _simultaneous: pairs over transactions_for(body) x transactions_for(partner), independent pairs rejected, "
+        "independence table filled symmetrically, worklist closure that skips recorded groups and groups with two independent members, "
+        "maximal groups only, members retired from the plain transaction list, only non-conflict orderings towards partners removed; "
+        "conditional-call infection marks the called methods of infected transactions unless already marked.",
+        "undecided": "that the steps of the group computation compose to the intended fixpoint; branch admissibility over inputs.",
         "technique": T_CORE,
     },
     "C13": {
         "level": "Connect declares write/read simultaneous, each returns the other's argument driven in av_comb; simultaneity recorded both ways and "
-        "copied to bodies; merged transaction calls all members.",
+        "copied to bodies; merged transaction calls all members; the steps of the group computation in _simultaneous (pairs, independence, "
+        "closure, maximal groups, retired members, removed relations) and MethodMap.transactions_for.",
         "undecided": "joint readiness under other blocked methods.",
         "technique": T_CORE,
     },
